@@ -62,6 +62,10 @@ def cells(tier, rng):
             sel.add((l, good, (3, 0), b"NULL", s, None, "ready"))
         for i in IDS:
             sel.add((l, good, (3, 0), b"NULL", "ok", i, "ready"))
+            # ... and with every compatible peer type (the READY's size depends on the type's name)
+            for p in NAMES:
+                if (l, p) in COMPAT:
+                    sel.add((l, p, (3, 0), b"NULL", "ok", i, "ready"))
         for f in FIRSTS:
             sel.add((l, good, (3, 0), b"NULL", "ok", None, f))
     for c in rng.sample(allc, 3000):
